@@ -1,4 +1,4 @@
-"""C06 — non-forced runs leave every output equal to a forced run: header and path sentences (CrossHair)."""
+"""C06 — non-forced runs leave every output equal to a forced run: header / decision / path laws (CrossHair), regeneration step law over import graphs, closed histories through the real command-line application."""
 from vlib.runner import Job, Report, class_splits
 
 H = 'harness.c06_outputs'
@@ -17,7 +17,17 @@ def run(rep: Report, tier: str, only=None) -> None:
 			jobs.append(Job('O3.paths', H, 'path_law', {'config': cfg, **c}, t, 'S', f'two module paths <= {4 if thorough else 3} over [ab | s | r | c | .] (dotted, distinct) under output_dirs configuration #{cfg} of 3 (fallback only; prefix rule; two prefix rules)', ()))
 	for row in range(4):
 		jobs.append(Job('O3.elem_paths', H, 'elem_paths_law', {'row': row}, t, 'F', 'two module paths out of 45 element sequences (<= 4 elements of [s, x, u] under the rule folder s, plus 5 outside it), all pairs, under 2 output_dirs configurations', ('rule_folder_recurs',)))
+	HH = 'harness.c06_histories'
+	jobs.append(Job('O4.regen.near', HH, 'regen_law', {'far': False}, t, 'F', 'module_meta_factory + MetaHeader + Runner.can_transpile over every acyclic import graph of 4 modules (64) x edited module (4): the edited module itself is selected for regeneration', ('dist0',)))
+	jobs.append(Job('O4.regen.far', HH, 'regen_law', {'far': True}, t, 'F', 'the same graphs: a module importing the edited module (distance >= 1) is selected for regeneration; a failing step is demonstrated through the real command-line application before it is reported', ('dist1', 'dist2')))
+	base = ['edit', 'fresh-edit', 'delete', 'back', 'forced-middle', 'edit-delete', 'upgrade']
+	plan = [(shape, f) for shape in ('chain3', 'fan3') for f in base] + [('diamond', f) for f in ('edit', 'delete', 'back')]
+	if thorough:
+		plan += [('diamond', f) for f in ('fresh-edit', 'forced-middle', 'edit-delete', 'two')] + [(shape, 'two') for shape in ('chain3', 'fan3')] + [('chain4', f) for f in base]
+	closed = [(f'O5.histories.{shape}.{f}', HH, 'histories_closed', {'shape': shape, 'families': [f]},
+		f'module graph {shape}: every history of the family {f!r} over all choices of the edited / deleted module(s) through the real TranspileApp (config file, globs, output_dirs, Writer) on a scratch file system; at every run the files after `run` are compared with the files after `run -f` from the same state, and unedited modules keep their output file untouched (closed)') for shape, f in plan]
 	if only:
+		closed = [c for c in closed if c[0] in only or c[0].split('.')[0] in only]
 		jobs = [j for j in jobs if j.obligation in only or j.obligation.split('.')[0] in only]
 	rep.functions = ['MetaHeader.to_header_str/to_json/try_from_content/from_json/__eq__/identity', 'data/cpp/template/block/entrypoint.j2 (first line, read at run time)', 'Runner.can_transpile/try_load_meta_header/output_filepath/fetch_output_path']
 	rep.bounds = {'header text': f'symbolic str <= {n}', 'module paths': 'two symbolic dotted paths'}
@@ -26,8 +36,10 @@ def run(rep: Report, tier: str, only=None) -> None:
 		'O2: md5 collision-freeness',
 		'O3: configurations in which two rules write into the same directory are excluded; glob rules (re.fullmatch) are a closed obligation over 10 module names',
 	]
-	rep.outside = ['the history quantifier (files after edit / run sequences)', 'whether everything that influences a module\'s output is in its header (needs two pipeline runs)']
+	rep.outside = ['import graphs of more than 4 modules', 'histories beyond the listed families', 'output_dirs mappings other than one prefix rule in the histories (the path laws O3 cover the mapping itself)', 'cache effects (the caches of the generated modules are dropped before every run: property C05)']
+	handle = rep.start_closed_many(closed)
 	rep.run_jobs(jobs)
+	rep.finish_closed_many(handle)
 	if not only or 'O3' in only:
 		rep.run_closed('O3.glob_paths', H, 'glob_paths_closed', {}, 'glob rules: 3 configurations x 10 module names through Runner.output_filepath, pairwise distinct (closed)')
 	rep.check_recorded()
